@@ -8,7 +8,11 @@ P, M = sys.argv[1], sys.argv[2]
 ALL = len(sys.argv) > 3
 src = f'/tmp/mut/{P}/out/{M}'
 dst = f'/verif/seeded/{P}-{M}'
-conf = subprocess.run(['/verif/bin/confirm_mutant.sh', P, M], capture_output=True, text=True).stdout.strip().splitlines()[-1]
+# a confirmation already produced by a parallel `bin/confirm_mutant.sh P M > out/M/confirm.txt` is reused
+if os.path.exists(f'{src}/confirm.txt') and open(f'{src}/confirm.txt').read().strip():
+    conf = open(f'{src}/confirm.txt').read().strip().splitlines()[-1]
+else:
+    conf = subprocess.run(['/verif/bin/confirm_mutant.sh', P, M], capture_output=True, text=True).stdout.strip().splitlines()[-1]
 ok = ' 0 failed' in conf and 'demo with patch exit=0 ' not in conf and 'demo without patch exit=0 ' in conf
 ids = [] if ALL else [P]
 tr = subprocess.run(['/verif/bin/try_mutant.sh', f'{src}/patch.diff'] + ids, capture_output=True, text=True).stdout.strip().splitlines()
